@@ -51,7 +51,7 @@ def model_check(chk, thorough):
     chk.add_model("Relay as-found variant (REGISTER accepted while claimed), state cover only, <= 9 steps", r2, "no invariants: sequence generation")
     if thorough:
         r3 = vlib.mc("Relay", "MC_Relay_thorough.cfg", workers=vlib.NCPU, timeout=2400)
-        chk.add_model("Relay design=>contract, 4 clients x 2 ids, <= 8 client steps", r3, "bounded")
+        chk.add_model("Relay design=>contract, 4 clients x 2 ids, <= 10 client steps", r3, "bounded")
     return hists, hists2, witnesses
 
 
@@ -352,7 +352,7 @@ def run(chk):
     corner = witnesses + rng.sample(gone_target, min(len(gone_target), 40 if not thorough else 400))
     run_and_validate(chk, [hist_to_script(h, rng).done() for h in corner] +
                      [hist_to_script(h, rng).lines + ["send c=%d p=tok:9" % c for c in (1, 2, 3)] + ["final"] for h in witnesses], "tlc-witnesses")
-    k1, k2 = (1500, 1000) if not thorough else (12000, 8000)
+    k1, k2 = (1500, 1000) if not thorough else (24000, 16000)
     # the longest as-found histories are the ones that run through the deviation; always keep a good share of them
     h1 = rng.sample(hists, min(len(hists), k1))
     h2s = sorted(hists2, key=len, reverse=True)
@@ -360,8 +360,8 @@ def run(chk):
     if chk.pid == "C25":
         run_and_validate(chk, [hist_to_script(h, rng).done() for h in h1], "tlc-state-cover", hists=h1)
         run_and_validate(chk, [hist_to_script(h, rng).done() for h in h2], "tlc-state-cover-as-found-variant")
-        run_and_validate(chk, transition_cover(hists + hists2, rng, 800 if not thorough else 6000), "tlc-transition-cover")
-        run_and_validate(chk, random_behaviours(rng, 400 if not thorough else 4000), "random")
+        run_and_validate(chk, transition_cover(hists + hists2, rng, 800 if not thorough else 12000), "tlc-transition-cover")
+        run_and_validate(chk, random_behaviours(rng, 400 if not thorough else 8000), "random")
     else:
         # C26: same generated executions, plus byte streams outside the protocol; the memory-safety clause is monitored
         # by running them under AddressSanitizer + UBSan as well
